@@ -21,7 +21,7 @@ META = {
         "engine; the caller must get an exception or exactly the authentic result."),
     "bounds": ["unit: all 2^3 flag combinations x MAC verdict x user match x 3 PDU kinds x 2 payload forms x 3 credential levels",
                "end to end: authentic responses for get and the 2nd request of a walk, MD5 / SHA-1, authNoPriv / authPriv",
-               "substitution: every position (quick: positions 0..79 stride per job) x {8 single-bit flips, 0x00, 0xFF, 0x80, 0x30, 0x04} (thorough: all 256 values)",
+               "substitution: every position (quick: positions 0..79 stride per job) x {8 single-bit flips, 0x00, 0xFF, 0x80, 0x30, 0x04} (thorough: positions 0..239; all 256 values for four of the eight authentic responses)",
                "every truncation point", "flags 0..7", "digest in {right, other key, other user's key, zeroed, empty, 11 octets}", "forged content combined with a zero / wrong-key / authentic / empty digest field (thorough: every one-octet digest)"],
     "outside": ["forgery of HMAC-MD5-96 / HMAC-SHA-96 itself (ideal-MAC assumption at the unit level)", "replay of old authentic messages (timeliness is C12)",
                 "two or more simultaneous substitutions"],
@@ -279,11 +279,13 @@ def jobs(tier):
         for op in ("get", "walk"):
             if quick and (kind, op) not in (("md5", "get"), ("sha1priv", "get"), ("sha1", "walk"), ("md5priv", "walk")):
                 continue
-            chunk = 20 if quick else 8
+            primary = (kind, op) in (("md5", "get"), ("sha1priv", "get"), ("sha1", "walk"), ("md5priv", "walk"))
+            allv = (not quick) and primary      # every value of the octet (thorough, four of the eight responses)
+            chunk = 20 if not allv else 8
             top = 80 if quick else 240
             for lo in range(0, top, chunk):
-                out.append(Job(f"e2e-{kind}-{op}-substitute-{lo:03d}", make_e2e(kind, op, "substitute", lo, lo + chunk - 1, not quick),
-                               [Arg("pos", lo, lo + chunk - 1), Arg("val", 0, 255 if not quick else 12)],
+                out.append(Job(f"e2e-{kind}-{op}-substitute-{lo:03d}", make_e2e(kind, op, "substitute", lo, lo + chunk - 1, allv),
+                               [Arg("pos", lo, lo + chunk - 1), Arg("val", 0, 255 if allv else 12)],
                                timeout=500 if quick else 1500, mode="E/concolic-window", functions=ef, sample_every=41))
             out.append(Job(f"e2e-{kind}-{op}-truncate", make_e2e(kind, op, "truncate"), [Arg("cut", 0, 400), Arg("unused", 0, 0)],
                            timeout=500, mode="E/concolic-window", functions=ef, sample_every=11))
